@@ -101,6 +101,13 @@ var storeAlphabet = []storeMember{
 	{"ca:../x", "name-unsafe"},
 	{"ca:a\\b", "name-unsafe"},
 	{"ca:a b", "name-unsafe"},
+	// everything after the FIRST ':' is the store name: a second ':' is not a file-name-safe character
+	{"ca:a:b", "name-unsafe"},
+	{"ca:a:../../x", "name-unsafe"},
+	{"tsa:t:", "name-unsafe"},
+	{"ca:a\n", "name-unsafe"},
+	{"ca:a\x00", "name-unsafe"},
+	{"ca:\u00e4", "name-unsafe"},
 	{"ca:.", "name-dot"},
 	{"ca:..", "name-dot"},
 	{"tsa:..", "name-dot"},
